@@ -1,7 +1,7 @@
 CONSTANTS
- Q = 11
- P = 23
- GEN = 4
+ Q = 13
+ P = 53
+ GEN = 16
  DomH1 <- MC_DomH1
  DomH2 <- MC_DomH2
  DomH3 <- MC_DomH3
@@ -12,18 +12,15 @@ CONSTANTS
  DomHID <- MC_DomHID
  Shapes <- MC_Shapes
  IdSets <- MC_IdSets
- MaxExtra <- MC_MaxExtra
- Deltas <- MC_Deltas
- Kinds <- MC_Kinds
- KeyChoices <- MC_KeyChoices
+ A0Choices <- MC_A0Choices
  CoeffChoices <- MC_CoeffChoices
+ KChoices <- MC_KChoices
+ MaxExtra <- MC_MaxExtra
  RandChoices <- MC_RandChoices
- MsgA <- MC_MsgA
- MsgB <- MC_MsgB
- Modes <- MC_Modes
- MaxCheaters <- MC_MaxCheaters
+ Msg <- MC_Msg
+ SweepSigners <- MC_SweepSigners
  EMIT <- MC_EMIT
 INIT Init
 NEXT Next
 CHECK_DEADLOCK FALSE
-INVARIANTS InvAggregate InvVerifyShare InvReleased Emit
+INVARIANTS InvDkgOk InvOutputs InvSignOk InvSchnorr Emit
